@@ -67,7 +67,9 @@ class CompositeFrontend(ConstrainedFrontend):
 
     def __setstate__(self, s):
         self._solvers, self._template_frontend, self._unsat, self._track, base_state = s
-        self._owned_solvers = weakref.WeakSet(self._solver_list)
+        # a child may also be held by another composite restored from the same pickle (branches pickled together share their
+        # children): own none, so that the first change to a child copies it, as after branch()
+        self._owned_solvers = weakref.WeakSet()
         # which children had been checked is not part of the pickled state: check them all again (with none marked
         # unchecked, check_satisfiability() looked at no child and a restored unsatisfiable solver said SAT)
         self._unchecked_solvers = weakref.WeakSet(self._solver_list)
